@@ -753,14 +753,42 @@ type RunResult struct {
 }
 
 // RunCmd runs a child in its own process group under a hard kill deadline.
+// cappedBuffer keeps the first max bytes written to it and discards the rest.
+type cappedBuffer struct {
+	mu  sync.Mutex
+	buf bytes.Buffer
+	max int
+}
+
+func (c *cappedBuffer) Write(p []byte) (int, error) {
+	c.mu.Lock()
+	defer c.mu.Unlock()
+	if room := c.max - c.buf.Len(); room > 0 {
+		if len(p) <= room {
+			c.buf.Write(p)
+		} else {
+			c.buf.Write(p[:room])
+			c.buf.WriteString("\n[output truncated by the harness]\n")
+		}
+	}
+	return len(p), nil
+}
+
+func (c *cappedBuffer) String() string {
+	c.mu.Lock()
+	defer c.mu.Unlock()
+	return c.buf.String()
+}
+
 func RunCmd(dir string, env []string, timeout time.Duration, name string, args ...string) RunResult {
 	cmd := exec.Command(name, args...)
 	cmd.Dir = dir
 	if env != nil {
 		cmd.Env = env
 	}
-	var so, se bytes.Buffer
-	cmd.Stdout, cmd.Stderr = &so, &se
+	// captured output is capped (a child that reports thousands of data races or panics must not exhaust memory)
+	so, se := &cappedBuffer{max: 48 << 20}, &cappedBuffer{max: 48 << 20}
+	cmd.Stdout, cmd.Stderr = so, se
 	setpgid(cmd)
 	if err := cmd.Start(); err != nil {
 		return RunResult{Stderr: err.Error(), Exit: -1}
